@@ -6,6 +6,65 @@ from vf.pipeline import Group, Replay, ALL_LIB
 
 ID = 'C09'
 LEVEL = 'proof'
+EXPLANATION = (
+    'Data strings. The body of parse_data_string\'s loop is cut out (Unit.block) as the step function pds_step over the parser state and put under a '
+    'complete transition contract (contracts/C09_step.h: one next-state clause per state variable, position/advance clauses, output clauses per construct: '
+    '"..." with escapes, \'...\' 16-bit expansion, // and /* */ comments, ? mask toggle, $ byte order, #..#### numerals of 1/2/4/8 bytes, % float / %% double, hex pairs; '
+    'strtoull/strtod/strtof abstract: value = ghost, end pointer anywhere up to the terminator). It is enforced with goto-instrument --dfcc, loop-free, for every '
+    'state, every look-ahead, every remaining length. parse_data_string as a whole (same text, loop body replaced by the call of pds_step, bound by that contract) is then '
+    'proved total under a loop contract: position stays inside [s, s+size], strictly advances (decreases), no exception, load_file unreachable with ALLOW_FILES off, '
+    'output <= 4 bytes per character, mask as long as the data. Losslessness: the bodies of the two rendering loops of format_data_string are cut out as per-byte step '
+    'functions; the step-simulation lemmas run the formatter step on ONE symbolic byte / mask byte / mask state and feed the emitted characters (followed by an arbitrary '
+    'next character) to the parser step in the corresponding parser state: exactly that byte and its mask classification are appended and the state is restored '
+    '(all 256 bytes x all mask bytes x both mask states x any look-ahead; loop-free). With the bracket lemma (opening/closing quote), the initial-state lemma and the '
+    'classification contract of the whole formatter (quoted form iff strings not suppressed and every byte printable; loop contracts, ghost index + witness) this is the '
+    'induction step of parse(format(x, mask)) == (x, mask) for strings of any length; the composition itself is machine-checked only up to a bound (bounded group).')
+TRUSTED = [
+    'stubs/C09_str.h: own stubs of C09 -- the two std::string models (full vstr model; append-only "tail" model: total size + first byte + bytes appended in the current '
+    'loop iteration), append/fill/literal-append bodies, printf("%02X") = two upper-case hex digits, strtoull/strtod/strtof (end pointer between nptr and the terminating NUL, '
+    'abstract value), load_file (must be unreachable)',
+    'stubs/vstr.h (std::string model shared with C01/C02/C08)',
+    'contracts/C09_glue.h, C09_step.h, C09_parse.h, C09_format.h: the specification macros (printable set, escape table, widths selected by #/%, byte order) written from the '
+    'property statement and the construct comments of parse_data_string',
+    'the induction that lifts the step lemmas to strings of any length (stated in EXPLANATION, not machine-checked; machine-checked instances: lengths <= 3 / <= 5)',
+]
+ASSUMPTIONS = [
+    'texts and data up to 2^32 bytes (object sizes of the model); std::string allocation succeeds (capacity model: 4 bytes per input character + 8 for the parser, 5 characters per byte + 2 for the formatter)',
+    'ParseDataFlags::ALLOW_FILES is off (with the flag on, load_file may throw and append a file of any size: outside the claim)',
+    'the numeric value of a numeral (#.., %..) is whatever strtoull(.., base 0) / strtod / strtof return for the text after the markers: libc is not verified; only the '
+    'call (argument = position after the markers, base 0), the truncation to the selected width and the byte order are',
+    'char is signed 8-bit (x86-64 model); float/double are IEEE-754 bit patterns and bit-exact float obligations are answered by SAT back ends only',
+    'a bool object holds 0 or 1 (stated as precondition of the step contract; the verifier\'s havoc would otherwise produce other bit patterns)',
+]
+DROPS = ('std::string result -> out-parameter (OUT_STR), s.c_str() -> (const char* s, size_t s_size), data += c / append / push_back / mask->append / ret += literal -> model calls, '
+         'string_printf("%02X", v) -> printf model, strtoull/strtod/strtof/load_file -> stubs, const_cast/reinterpret_cast -> C casts, constexpr host_big_endian -> enum from '
+         'Platform.hh\'s byte-order #if (extracted), enumerators ParseDataFlags::ALLOW_FILES / FormatDataFlags::SKIP_STRINGS -> values read from Strings.hh; for the step function '
+         'the locals of parse_data_string that live across iterations become file-scope state, `return data;` inside the loop -> flag g_returned; for the loop skeleton the loop body '
+         'is replaced by the call of the step function plus ghost bindings')
+NOT_DECIDED = [
+    'hex dump (format_data core, print_data/format_data overloads): NOT decided by this technique -- generic lambda, std::function, string_printf("%0*llX"/" %02X"/"%g"), terminal '
+    'escapes; none of: address/hex/ASCII column fidelity, start address / flag combinations, diff highlighting, zero-line collapsing, iovec partition independence',
+    'the composition parse(format(x, mask)) == (x, mask) for unbounded length: proved as step lemmas + classification + brackets (induction stated, not machine-checked); '
+    'machine-checked composition only for length <= 3 (quick) / <= 5 (thorough), labelled bounded',
+    'format_data_string(const std::string&, const std::string*, flags) (size check + forwarding) is not under contract',
+    'numeral text -> value (strtoull/strtod/strtof), ALLOW_FILES on, src/ParseData.cc (command-line wrapper: file I/O only)',
+    'the high byte of the 16-bit code unit of a character >= 0x80 inside \'...\' is carved out of the step contract and judged by its own group (parse_data_string.wide_char)',
+]
+CLAIMED = True
+MANIFEST = dict(
+    category='proof',
+    text=('Data-string half only. parse_data_string: the loop body (extracted as a function) satisfies a complete transition contract for every parser state, look-ahead and '
+          'remaining length (loop-free, --dfcc): per construct the bytes the syntax defines ($ byte order, #/##/###/#### widths, %/%% floats, "..." escapes, \'...\' 16-bit expansion, '
+          'comments, ? mask toggles, hex pairs), position inside the text, progress; the whole function is total under a loop contract with the step bound by contract (no out-of-bounds '
+          'read, terminates, no exception, no file access without ALLOW_FILES, mask length == data length). format_data_string: quoted form iff every byte printable and strings not '
+          'suppressed (loop contracts, ghost index/witness), reads inside [0,size), size bounds. Losslessness: per-byte step-simulation lemmas formatter-step -> parser-steps over all '
+          'bytes / mask bytes / mask states / look-aheads (loop-free), quote-bracket and initial-state lemmas; composition machine-checked for lengths <= 3 (quick) / <= 5 (thorough) as a '
+          'bounded check. Hex dump: not decided.'),
+    note=('Trusted: cbmc/goto-instrument/solvers, the extractor, stubs/C09_str.h (string models incl. the append-only tail model, printf %02X, strto* end-pointer model), stubs/vstr.h, the spec macros. '
+          'Assumes ALLOW_FILES off, sizes < 2^32, signed char. The induction from the step lemmas to arbitrary length is stated, not machine-checked. Two defects found and fixed: '
+          'backslash not escaped by the quoted form (fixes/C09-1), sign extension of bytes >= 0x80 inside \'...\' (fixes/C09-2).'),
+    technique='function + loop contracts enforced with goto-instrument --dfcc on the extracted step function / loop skeleton / formatter, loop-free step-simulation lemmas on the extracted loop bodies, cbmc SAT portfolio; one bounded composition check',
+)
 CC = 'src/Strings.cc'
 HH = 'src/Strings.hh'
 
@@ -29,16 +88,16 @@ def parser_rules(ret_stmt, nret, whole):
     pre = [Rule('ParseDataFlags::ALLOW_FILES', 'ParseDataFlags_ALLOW_FILES', count=1), HOST_BE] if whole else []
     return pre + [
         Rule(r'data \+= load_file\(filename\);', 'C09_load_file(data, &filename); if (verif_exc) %s' % ret_stmt, regex=True, count=1),
-        Rule(r'\bdata \+= ([^;]+);', r'vstr_push_back(data, \1);', regex=True, count='+'),
+        Rule(r'\bdata \+= ([^;]+);', r'out_push_back(data, \1);', regex=True, count='+'),
         Rule(r'\bdata\.append\(\(const char\*\)&value, ([^;]+)\);', r'C09_append_bytes(data, (const char*)&value, \1);', regex=True, count='+'),
-        Rule(r'\bdata\.append\(1, ([^;]+)\);', r'vstr_push_back(data, \1);', regex=True, count='+'),
-        Rule(r'\bdata\.size\(\)', 'vstr_size(data)', regex=True, count=2),
+        Rule(r'\bdata\.append\(1, ([^;]+)\);', r'out_push_back(data, \1);', regex=True, count='+'),
+        Rule(r'\bdata\.size\(\)', 'out_size(data)', regex=True, count=2),
         Rule(r'\bstrtoull\(', 'C09_strtoull(', regex=True, count='+'),
         Rule(r'\bstrtod\(', 'C09_strtod(', regex=True, count='+'),
         Rule(r'\bstrtof\(', 'C09_strtof(', regex=True, count='+'),
         Rule(r'\bfilename\.append\(1, ([^;]+)\);', r'vstr_push_back(&filename, \1);', regex=True, count=1),
         Rule('filename.clear();', 'vstr_clear(&filename);', count=1),
-        Rule(r'return data;', ret_stmt, count=nret),
+        Rule(r'return data;', ret_stmt, count='+'),
     ]
 
 
@@ -49,7 +108,7 @@ def prelude_unit(ctx, src):
     u.raw('enum { %s, %s };' % (enum_value(u, src, 'ParseDataFlags', 'ALLOW_FILES'), enum_value(u, src, 'FormatDataFlags', 'SKIP_STRINGS')))
     u.raw(u.snippet(src, 'src/Platform.hh', r'#if defined\(__BYTE_ORDER__\) && \(__BYTE_ORDER__ == __ORDER_LITTLE_ENDIAN__\).*?\n#endif'))
     u.function(src, CC, r'static inline void add_mask_bits\(string\* mask, bool mask_enabled, size_t num_bytes\)',
-               new_header='static inline void add_mask_bits(vstr* mask, bool mask_enabled, size_t num_bytes)',
+               new_header='static inline void add_mask_bits(OUT_STR* mask, bool mask_enabled, size_t num_bytes)',
                rules=[Rule(r'mask->append\(', 'C09_append_fill(mask, ', regex=True, count=1)])
     u.raw('#endif')
     u.write()
@@ -77,13 +136,59 @@ def parse_unit(ctx, src):
     """the whole parser, loop contract on its single loop (totality: memory safety, termination, no exception)"""
     u = Unit(ctx, 'pds_full')
     u.function(src, CC, PARSE_SIG,
-               new_header='void parse_data_string(vstr* data, const char* s, size_t s_size, vstr* mask, uint64_t flags)',
+               new_header='void parse_data_string(OUT_STR* data, const char* s, size_t s_size, OUT_STR* mask, uint64_t flags)',
                rules=parser_rules('return;', 3, True) + [
                    Rule(r'const char\* in = s\.c_str\(\);', 'const char* in = s;', regex=True, count=1),
                    Rule('string data;', '', count=1),
-                   Rule('mask->clear();', 'vstr_clear(mask);', count=1),
+                   Rule('mask->clear();', 'out_clear(mask);', count=1),
                    Rule('string filename;', 'vstr filename = { 0, 0, 0 };', count=1)],
                body_prefix=' g_end = s + s_size; ', nloops=1, loops={1: PARSE_LOOP})
+    u.write()
+    return u
+
+
+SKEL_LOOP = """
+__CPROVER_assigns(in, chr, reading_string, reading_unicode_string, reading_comment, reading_multiline_comment, reading_high_nybble,
+                  big_endian, mask_enabled, g_returned, g_n, g_c0, g_c1, g_c2, g_c3,
+                  g_st_calls, g_st_arg, g_st_end, g_st_base, g_st_kind, g_num, g_dbl, g_flt,
+                  data->size, data->nw, __CPROVER_object_upto(data->w, C09_WIN) PDS_LOOP_MASK_ASSIGNS)
+__CPROVER_loop_invariant(__CPROVER_same_object(in, s) && __CPROVER_POINTER_OFFSET(in) <= s_size)
+__CPROVER_loop_invariant(verif_exc == 0 && !reading_filename && !allow_files && g_load_calls == 0 && !g_returned)
+__CPROVER_loop_invariant(PDS_B01(reading_string) && PDS_B01(reading_unicode_string) && PDS_B01(reading_comment) && PDS_B01(reading_multiline_comment))
+__CPROVER_loop_invariant(PDS_B01(reading_high_nybble) && PDS_B01(big_endian) && PDS_B01(mask_enabled))
+__CPROVER_loop_invariant(PDS_MODES_OK(reading_comment, reading_multiline_comment, reading_string, reading_unicode_string))
+__CPROVER_loop_invariant(PDS_NYBBLE_OK(reading_high_nybble, chr))
+__CPROVER_loop_invariant(data->size <= 4 * (size_t)__CPROVER_POINTER_OFFSET(in))
+__CPROVER_loop_invariant(mask != 0 ==> mask->size == data->size)
+__CPROVER_decreases(s_size - (size_t)__CPROVER_POINTER_OFFSET(in))
+"""
+
+# the loop body is replaced by a call of the step function (the very same text, cut by Unit.block in step_unit); the ghost
+# statements in front of the call bind the ghosts of the step contract (look-ahead characters, remaining length, frame value)
+SKEL_CALL = ('{ g_n = s_size - (size_t)__CPROVER_POINTER_OFFSET(in); g_c0 = in[0]; g_c1 = in[1]; g_c2 = g_c1 ? in[2] : 0; g_c3 = g_c2 ? in[3] : 0; '
+             'g_st_calls = 0; C09_WINDOW_RESET(data); C09_WINDOW_RESET(mask); pds_step(); if (g_returned) return; }')
+
+
+def skeleton_unit(ctx, src):
+    """parse_data_string with its loop body cut out: prologue, `while (in[0])`, a call of pds_step (contract), epilogue.
+    The locals that live across iterations become the file-scope parser state the step contract talks about."""
+    from vf import lex
+    text = src.text(CC)
+    _, fbody, _, _ = lex.find_def(text, PARSE_SIG, 'function')
+    _, loop_body, _, _ = lex.find_block(fbody, r'while \(in\[0\]\)', 'loop body')
+    u = Unit(ctx, 'pds_skeleton')
+    u.function(src, CC, PARSE_SIG, generic=False,
+               new_header='void parse_data_string(OUT_STR* data_out, const char* s, size_t s_size, OUT_STR* mask_out, uint64_t flags)',
+               rules=[Rule(loop_body, SKEL_CALL, count=1),
+                      Rule('ParseDataFlags::ALLOW_FILES', 'ParseDataFlags_ALLOW_FILES', count=1),
+                      Rule(r'constexpr bool host_big_endian = (true|false);', '', regex=True, count=2),
+                      Rule(r'\b(?:uint8_t|bool) (chr|reading_\w+|big_endian|mask_enabled|allow_files) = ', r'\1 = ', regex=True, count=10),
+                      Rule(r'const char\* in = s\.c_str\(\);', 'in = s;', regex=True, count=1),
+                      Rule('string data;', '', count=1),
+                      Rule('mask->clear();', 'out_clear(mask);', count=1),
+                      Rule('string filename;', '', count=1),
+                      Rule('return data;', 'return;', count=1)],
+               body_prefix=' data = data_out; mask = mask_out; g_end = s + s_size; g_returned = 0; ', nloops=1, loops={1: SKEL_LOOP})
     u.write()
     return u
 
@@ -95,9 +200,10 @@ def step_unit(ctx, src):
     u.raw(u.snippet(src, CC, r'#ifdef PHOSG_BIG_ENDIAN\s*constexpr bool host_big_endian = true;\s*#else\s*constexpr bool host_big_endian = false;\s*#endif',
                     rules=[HOST_BE]))
     # the state variables the loop body works on are exactly the locals declared between the function start and the loop
-    decl = u.snippet(src, CC, r'uint8_t chr = 0;\s*bool reading_string = false;\s*bool reading_unicode_string = false;\s*bool reading_comment = false;\s*'
-                              r'bool reading_multiline_comment = false;\s*bool reading_high_nybble = true;\s*bool reading_filename = false;\s*'
-                              r'bool big_endian = false;\s*bool mask_enabled = true;\s*string filename;\s*while \(in\[0\]\)')
+    V = r' = \w+;\s*'
+    decl = u.snippet(src, CC, r'uint8_t chr' + V + r'bool reading_string' + V + r'bool reading_unicode_string' + V + r'bool reading_comment' + V +
+                              r'bool reading_multiline_comment' + V + r'bool reading_high_nybble' + V + r'bool reading_filename' + V +
+                              r'bool big_endian' + V + r'bool mask_enabled' + V + r'string filename;\s*while \(in\[0\]\)')
     u.raw('/* initial parser state, from the declarations in front of the loop */\n#define PDS_INIT_STATE() do { %s } while (0)'
           % ' '.join(re.sub(r'^(?:uint8_t|bool) ', '', d.strip()) + ';' for d in decl.split(';')[:9]))
     u.block(src, CC, PARSE_SIG, r'while \(in\[0\]\)', new_header='void pds_step(void)',
@@ -108,9 +214,9 @@ def step_unit(ctx, src):
 
 FMT_RULES = [
     Rule('FormatDataFlags::SKIP_STRINGS', 'FormatDataFlags_SKIP_STRINGS', count=None),
-    Rule(r"\bret \+= ('(?:[^'\\]|\\.)+');", r'vstr_push_back(ret, \1);', regex=True, count=None),
+    Rule(r"\bret \+= ('(?:[^'\\]|\\.)+');", r'out_push_back(ret, \1);', regex=True, count=None),
     Rule(r'\bret \+= ("(?:[^"\\]|\\.)*");', r'C09_append_lit(ret, \1, sizeof(\1) - 1);', regex=True, count=None),
-    Rule(r'\bret\.push_back\(', 'vstr_push_back(ret, ', regex=True, count=None),
+    Rule(r'\bret\.push_back\(', 'out_push_back(ret, ', regex=True, count=None),
     Rule(r'\bret \+= string_printf\(("[^"]*"), ', r'C09_append_printf_hex(ret, \1, ', regex=True, count=None),
 ]
 
@@ -122,27 +228,28 @@ __CPROVER_loop_invariant(!is_printable ==> (g_w < size && !FDS_PRINTABLE(data[g_
 __CPROVER_decreases(size - z)
 """
 FMT_LOOP2 = """
-__CPROVER_assigns(x, mask_enabled, ret->size, __CPROVER_object_whole(ret->data))
-__CPROVER_loop_invariant(x <= size && ret->size >= 1 && ret->size <= 1 + 5 * x && (mask == 0 ==> ret->size <= 1 + 2 * x))
-__CPROVER_loop_invariant(ret->data[0] == '"')
+__CPROVER_assigns(x, mask_enabled, ret->size, ret->nw, __CPROVER_object_upto(ret->w, C09_WIN))
+__CPROVER_loop_invariant(x <= size && ret->size >= 1 && ret->size <= 1 + 5 * x && (mask == 0 ==> ret->size <= 1 + 2 * x) && ret->nw <= 5)
 __CPROVER_decreases(size - x)
 """
 FMT_LOOP3 = """
-__CPROVER_assigns(x, mask_enabled, ret->size, __CPROVER_object_whole(ret->data))
-__CPROVER_loop_invariant(x <= size && ret->size >= 2 * x && ret->size <= 3 * x && (mask == 0 ==> ret->size == 2 * x))
+__CPROVER_assigns(x, mask_enabled, ret->size, ret->nw, ret->first, __CPROVER_object_upto(ret->w, C09_WIN))
+__CPROVER_loop_invariant(x <= size && ret->size >= 2 * x && ret->size <= 3 * x && (mask == 0 ==> ret->size == 2 * x) && ret->nw <= 3)
 __CPROVER_decreases(size - x)
 """
 
-QUOTED_INTRO = r"ret \+= '[^']*';\s*for \(size_t x = 0; x < size; x\+\+\)"
-HEX_INTRO = r"\} else \{\s*for \(size_t x = 0; x < size; x\+\+\)"
+QUOTED_INTRO = r"ret \+= '[^']*';\s*for \(size_t x = \w+; x <=? size[^;]*; x\+\+\)"
+HEX_INTRO = r"\} else \{\s*for \(size_t x = \w+; x <=? size[^;]*; x\+\+\)"
 
 
 def format_unit(ctx, src):
     u = Unit(ctx, 'fds_full')
     u.function(src, CC, FORMAT_SIG,
-               new_header='void format_data_string(vstr* ret, const void* vdata, size_t size, const void* vmask, uint64_t flags)',
+               new_header='void format_data_string(OUT_STR* ret, const void* vdata, size_t size, const void* vmask, uint64_t flags)',
                rules=FMT_RULES + [
                    Rule('string ret;', 'g_quoted = is_printable;', count=1),
+                   # a new iteration of a rendering loop starts a new window of the append-only string model (no-op for the full model)
+                   Rule(r'(for \(size_t x = [^)]*\)\s*\{)', r'\1 C09_WINDOW_RESET(ret);', regex=True, count=2),
                    Rule(r'is_printable = false;', '{ g_w = z; is_printable = false; }', count=1),
                    Rule('return ret;', 'return;', count=1)],
                nloops=3, loops={1: FMT_LOOP1, 2: FMT_LOOP2, 3: FMT_LOOP3})
@@ -157,7 +264,7 @@ def fstep_unit(ctx, src):
     """the bodies of the two rendering loops as functions: what the formatter emits for ONE byte"""
     u = Unit(ctx, 'fds_step')
     me = Rule(r'\bmask_enabled\b', '(*mask_enabled_p)', regex=True, count='+')
-    hdr = 'static inline void %s(vstr* ret, const uint8_t* data, const uint8_t* mask, size_t x, bool* mask_enabled_p)'
+    hdr = 'static inline void %s(OUT_STR* ret, const uint8_t* data, const uint8_t* mask, size_t x, bool* mask_enabled_p)'
     u.block(src, CC, FORMAT_SIG, QUOTED_INTRO, new_header=hdr % 'fds_quoted_step', rules=FMT_RULES + [me])
     u.block(src, CC, FORMAT_SIG, HEX_INTRO, new_header=hdr % 'fds_hex_step', rules=FMT_RULES + [me])
     u.write()
@@ -172,17 +279,37 @@ def plan(ctx):
     upre = prelude_unit(ctx, src)
     up = parse_unit(ctx, src)
     us = step_unit(ctx, src)
+    usk = skeleton_unit(ctx, src)
     uf = format_unit(ctx, src)
     ufs = fstep_unit(ctx, src)
-    ctx.functions_under_contract = up.functions + us.functions + uf.functions + ufs.functions
+    ctx.functions_under_contract = up.functions + usk.functions + us.functions + uf.functions + ufs.functions
     groups = []
     RT = lambda mode: Replay(driver='C09/datastring.cc', mode=mode, sources=ALL_LIB)
     for mn, d in (('mask', []), ('nomask', ['MASK_NULL'])):
         groups.append(Group(name='parse_data_string.totality[%s]' % mn, harness='harness/C09/parse.c', entry='h_parse', function='parse_data_string',
-                            enforce='parse_data_string', loops=True, kind='loop-contract', defines=d, timeout=600, object_bits=12,
-                            replay=RT('parse_total')))
+                            enforce='parse_data_string', replace=['pds_step'], loops=True, kind='loop-contract', defines=d + ['C09_TAIL_MODEL', 'STEP_AT_CALL_SITE'], timeout=300,
+                            engines=['minisat', 'cadical'], replay=RT('parse_total')))
     for mn, d in (('mask', []), ('nomask', ['MASK_NULL'])):
         groups.append(Group(name='parse_data_string.step[%s]' % mn, harness='harness/C09/step.c', entry='h_step', function='parse_data_string (loop body)',
-                            enforce='pds_step', replace=['C09_append_bytes', 'C09_append_fill'], defines=d, timeout=300, object_bits=12, engines=['minisat', 'cadical'], min_post=10,
+                            enforce='pds_step', defines=d + ['C09_TAIL_MODEL'], timeout=300, engines=['minisat', 'cadical'], min_post=10,
                             replay=RT('step')))
+    for mn, d in (('mask', []), ('nomask', ['MASK_NULL'])):
+        groups.append(Group(name='format_data_string.classification[%s]' % mn, harness='harness/C09/format.c', entry='h_format',
+                            function='format_data_string', enforce='format_data_string', loops=True, kind='loop-contract', defines=d + ['C09_TAIL_MODEL'], first='cadical',
+                            timeout=300, min_post=5, replay=RT('classify')))
+    SIM = 'harness/C09/sim.c'
+    for entry, name, fn, mode in [('l_sim_quoted', 'roundtrip.step[quoted]', 'format_data_string quoted-form loop body / parse_data_string loop body', 'sim_quoted'),
+                                  ('l_sim_hex', 'roundtrip.step[hex]', 'format_data_string hex-form loop body / parse_data_string loop body', 'sim_hex'),
+                                  ('l_quote_brackets', 'roundtrip.quote_brackets', 'parse_data_string loop body', 'brackets'),
+                                  ('l_initial_state', 'parse_data_string.initial_state', 'parse_data_string (declarations in front of the loop)', 'initial'),
+                                  ('l_wide_char', 'parse_data_string.wide_char', 'parse_data_string loop body', 'wide_char')]:
+        groups.append(Group(name=name, harness=SIM, entry=entry, function=fn, kind='lemma', min_post=3, timeout=300,
+                            cbmc_flags=['--unwind', '6', '--unwinding-assertions'], replay=RT(mode)))
+    for n, tier in ((3, 'quick'), (5, 'thorough')):
+        unwind = 2 + 5 * n + 2
+        groups.append(Group(name='roundtrip.bounded[len<=%d]' % n, harness='harness/C09/roundtrip.c', entry='b_roundtrip',
+                            function='format_data_string / parse_data_string', kind='bounded', tier=tier, defines=['RT_N=%d' % n],
+                            bound='all byte strings of length <= %d, all masks (or none), flags 0 and HEX_ONLY; text <= %d characters' % (n, 2 + 5 * n),
+                            cbmc_flags=['--unwind', str(unwind), '--unwinding-assertions'], timeout=600 if n == 3 else 1800, min_post=4,
+                            replay=RT('roundtrip')))
     return groups
